@@ -87,14 +87,18 @@ Refused(z) ==
 SlowHandler(z) ==
     {[op |-> "stream", frames |-> fs, segs |-> <<Len(Cat(fs, 1))>>, handler |-> "device", e2e |-> TRUE, slow |-> TRUE] :
         fs \in {<<Frame("f3", 4660)>>, <<Frame("f3", 4660), Frame("f6", 4661)>>}}
-C15Cases(z) == OneFrame(0) \cup TwoFrames(0) \cup ThreeFrames(0) \cup E2E(0) \cup Big(0) \cup Refused(0) \cup SlowHandler(0)
+\* the server's transport hands over data TOGETHER with the read-deadline error (io.Reader allows n > 0 with an error)
+DlRead(z) ==
+    {[op |-> "stream", frames |-> fs, segs |-> Lens(Len(Cat(fs, 1)), cuts), handler |-> "device", e2e |-> TRUE, dlread |-> TRUE] :
+        fs \in {<<Frame("f3", 4660)>>, <<Frame("f3", 4660), Frame("f6", 4661)>>}, cuts \in {{}, {5}, {9}}}
+C15Cases(z) == DlRead(0) \cup OneFrame(0) \cup TwoFrames(0) \cup ThreeFrames(0) \cup E2E(0) \cup Big(0) \cup Refused(0) \cup SlowHandler(0)
 
 ----------------------------------------------------------------------------
 Whole(f, handler, e2e) == [op |-> "stream", frames |-> <<f>>, segs |-> <<Len(f)>>, handler |-> handler, e2e |-> e2e]
 Handlers == {"device", "errTyped", "errGeneric", "panic", "nil"}
 
 LegalFrames == {Frame(n, 4660) : n \in Names}
-UnsupportedFrames == {Hdr(4660, 6, 9) \o <<fc, 0, 1, 0, 1>> : fc \in (IF Thorough THEN (1..127) \ SupportedFC ELSE {7, 8, 11, 20, 22, 24, 43, 100, 127})}
+UnsupportedFrames == {Hdr(4660, 6, 9) \o <<fc, 0, 1, 0, 1>> : fc \in (IF Thorough THEN (1..127) \ SupportedFC ELSE {7, 8, 11, 20, 22, 24, 33, 37, 43, 48, 55, 64, 65, 100, 127})}
 OutOfLimitFrames ==
     {TCPADU(4660, 1, ReqPDU(R(fc, 1, 0, q, <<>>, 0, 0))) : fc \in {1, 2}, q \in {0, 2001, 65535}}
     \cup {TCPADU(4660, 1, ReqPDU(R(fc, 1, 0, q, <<>>, 0, 0))) : fc \in {3, 4}, q \in {0, 126, 65535}}
